@@ -11,7 +11,8 @@ from props.c15 import rand_rot, apply, sub, dot, cross, norm
 THEOREMS = ['C20_rot_code_is_mv', 'C20_q2mat_proper', 'C20_form1_identity', 'C20_rot_norm', 'C20_form2_additive',
             'C20_form3_additive', 'C20_residual_identity', 'C20_optimal_given_max', 'C20_exact_copy_zero',
             'C20_code_place_is_fit_place', 'C20_fit_fragment_places', 'C20_rmsd2_is_rms', 'C20_centroid3_is_mean',
-            'C20_unit_quaternion_example', 'C20_eigen_max']
+            'C20_unit_quaternion_example', 'C20_euler_rodrigues', 'C20_optimal_all_rotations', 'C20_exact_copy_zero_all',
+            'C20_half_turn_example', 'C20_eigen_max']
 GEN_FILES = ['K_quat']
 
 
@@ -237,7 +238,7 @@ def run(ctx):
                        '(random and perturbations), fit_fragment on a random non-collinear subset; all random, hence distinct')
     ctx.assumptions += ['Jacobi convergence within 30 sweeps is not proved: the eigen certificate (V orthogonal, N = V D V^T, d3 largest) '
                         'assumed by C20_eigen_max is checked numerically (1e-8) on every sample',
-                        'optimality is proved over unit quaternions; that every proper rotation is Q(p) for a unit p (Euler-Rodrigues) is not proved in Coq',
+                        'optimality is proved against all proper rotations (C20_euler_rodrigues: every orthogonal matrix of determinant 1 is Q(p) for a unit p)',
                         'the accumulation loop of qtrfit for n pairs is modelled as the fold of the traced one-pair form '
                         '(proved equal to the traced forms for n = 2, 3; compared numerically for n up to 30)']
 
